@@ -5,6 +5,7 @@ package fdo
 
 import (
 	"context"
+	"fmt"
 	"time"
 
 	"github.com/fido-device-onboard/go-fdo/protocol"
@@ -48,6 +49,14 @@ func captureMsgType(ctx context.Context, msgType uint8) {
 func captureErr(ctx context.Context, code uint16, err string) {
 	errMsgFromContext(ctx).Code = code
 	errMsgFromContext(ctx).ErrString = err
+}
+
+// errUnsupportedMsgType is the error a responder returns for a message type it
+// has no handler for (for example a response-only type sent as a request), so
+// that the peer is answered with an error message.
+func errUnsupportedMsgType(ctx context.Context, msgType uint8) error {
+	captureErr(ctx, protocol.InvalidMessageErrCode, "")
+	return fmt.Errorf("unsupported message type %d", msgType)
 }
 
 func errorMsg(ctx context.Context, transport Transport, err error) {
